@@ -312,7 +312,7 @@ def _term_parts(quick):
                     out.append(dict(seed_i=s, k0=a, k1=b))
                 elif quick:
                     if s < 3:
-                        out += [dict(seed_i=s, k0=2, k1=2, l0=x) for x in range(1, n + 2)]
+                        out += [dict(seed_i=s, k0=2, k1=2, l0=x, l1=y) for x in range(1, n + 2) for y in range(1, n + 2)]
                 else:
                     out += [dict(seed_i=s, k0=2, k1=2, l0=x, l1=y) for x in range(1, n + 2) for y in range(1, n + 2)]
     return out
